@@ -23,6 +23,11 @@ def shards(mode, bin_, n, **kw):
 
 
 PROPS = {
+    "C18": {
+        "runs": [{"mode": "native-dev", "bin": "c18"}] + shards("miri", "c18", 16) + [{"mode": "asan-dev", "bin": "c18"}],
+        "expect_monitors": ["soa_histories"],
+        "assumptions": ASSUME_COMMON + ["std Vec / slice iterators are the reference semantics (sequential model)"],
+    },
     "C04": {
         "runs": [{"mode": "native-dev", "bin": "c04"}]
         + shards("miri", "c04", 16)
